@@ -67,13 +67,20 @@ class Facts:
             self.units.append("src/libawkward/**/*.cpp: %d translation units, %d function bodies (patterns + instantiations)" % (len(self._lib), sum(len(t["funcs"]) for t in self._lib.values())))
         return self._lib
 
-    def lib_funcs(self, inst=False, files=None):
-        """function bodies defined in src/libawkward (main files) and include/awkward; patterns and non-templates unless inst"""
+    with_inst = False   # thorough tier: structural rules also see every template instantiation
+
+    def lib_funcs(self, inst=None, files=None):
+        """function bodies defined in src/libawkward (main files) and include/awkward.
+        inst=False: template patterns and non-template code; inst=True: instantiations only;
+        inst=None (default): patterns, plus instantiations when with_inst is set (thorough tier)"""
         seen = set()
         out = []
         for p, tu in sorted(self.lib_tus().items()):
             for f in tu["funcs"]:
-                if bool(f["inst"]) != bool(inst):
+                if inst is None:
+                    if f["inst"] and not self.with_inst:
+                        continue
+                elif bool(f["inst"]) != bool(inst):
                     continue
                 k = (f["qual"], f["file"], f["line"], f["targs"], f["ftargs"])
                 if k in seen:
